@@ -1,5 +1,5 @@
 (* C20 — LinearAttempt: at most count values, first immediately, always closed.
-   Statements only; every proof is `exact` of a lemma of Proofs/Attempt.v.
+   Statements only; every proof is `exact` of a lemma of Proofs/Attempt.v or Proofs/AttemptMore.v.
    Model/Attempt.v: `faithful n` is the code as it is (capacity 1, all defect flags off) called with count = n;
    `run c init sched` executes an arbitrary schedule of the caller (LCall), the producer goroutine (LProd, the flag
    resolves a select with both cases ready), the ticker (LTick d: time advances by d, a tick is offered on ticker.C and
@@ -8,7 +8,7 @@
    so `forall sched` is: every count, every receiver pace, every instant of cancellation, every select outcome. *)
 From Coq Require Import List Arith Bool.
 From BB.Model Require Import Attempt.
-From BB.Proofs Require Attempt.
+From BB.Proofs Require Attempt AttemptMore.
 Import ListNotations.
 
 (* "yields its first value immediately": in the state in which LinearAttempt returns, the channel holds exactly the first
@@ -90,6 +90,22 @@ Theorem C20_after_cancel : forall n sched, 1 <= n ->
 Proof. exact Proofs.Attempt.f_after_cancel. Qed.
 Print Assumptions C20_after_cancel.
 
+(* The same clause WITHOUT ghost counters, over the observable lists [sent] / [recvd] (every value ever sent on /
+   received from the channel, in order): split any schedule at a cancellation - s0 is the state right before it (also a
+   state before the call, or one already cancelled: the LCancel is then a stutter), s1 any state after it, whatever the
+   ticker, the producer and the receiver did in between.  From s0 to s1 at most ONE more value is sent, at most TWO more
+   values are received, and whatever is received from then on had already been sent at s0, but for that one value.
+   Both bounds are attained (Proofs.AttemptMore.after_cancel_lists_tight: one value buffered, one in flight). *)
+Theorem C20_after_cancel_observable : forall n pre post_, 1 <= n ->
+  let c := faithful n in
+  let s0 := run c init pre in
+  let s1 := run c s0 (LCancel :: post_) in
+  length (sent s1) <= length (sent s0) + 1 /\
+  length (recvd s1) <= length (recvd s0) + 2 /\
+  length (recvd s1) <= length (sent s0) + 1.
+Proof. exact Proofs.AttemptMore.f_after_cancel_lists. Qed.
+Print Assumptions C20_after_cancel_observable.
+
 (* "the producing goroutine always exits", "closed promptly after the context is cancelled": once the context is cancelled
    or the count-th value has been sent, a live producer is never blocked (whichever select case is preferred) and each of
    its steps strictly decreases rank <= 6 ... *)
@@ -134,6 +150,14 @@ Theorem C20_norecheck_refuted :
     sac s = 2 /\ rac s = 3.
 Proof. exact Proofs.Attempt.norecheck_refuted. Qed.
 Print Assumptions C20_norecheck_refuted.
+
+(* the same on the observable lists: two more values sent and three more received after the cancellation *)
+Theorem C20_norecheck_observable_refuted :
+  exists pre post_, let c := Proofs.Attempt.variant 1 5 false true false false in
+    let s0 := run c init pre in let s1 := run c s0 (LCancel :: post_) in
+    length (sent s1) = length (sent s0) + 2 /\ length (recvd s1) = length (recvd s0) + 3.
+Proof. exact Proofs.AttemptMore.norecheck_lists_refuted. Qed.
+Print Assumptions C20_norecheck_observable_refuted.
 
 (* blocking send instead of select/default: after the cancellation the producer is alive and blocked, and stays so for every
    continuation without a receive — an absent receiver leaks the goroutine and the channel is never closed *)
